@@ -170,6 +170,14 @@ def infer_roles(prog) -> Roles:
             sort_kw, base = list(base.keywords), base.args[0]
         if not isinstance(base, ast.Name):
             return None
+        # results = sorted(found, key=...): look through the sorted temporary to the collection it sorts
+        for _hop in range(3):
+            defs = assigns.get(base.id, [])
+            if sort_kw is None and len(defs) == 1 and isinstance(defs[0], ast.Call) and common.is_name(defs[0].func, "sorted") and \
+                    len(defs[0].args) == 1 and isinstance(defs[0].args[0], ast.Name):
+                sort_kw, sort_at, base = list(defs[0].keywords), defs[0], defs[0].args[0]
+            else:
+                break
         C = base.id
         init = comp = None
         fills, sorts = [], []
@@ -182,6 +190,8 @@ def infer_roles(prog) -> Roles:
             elif isinstance(s_, ast.AnnAssign) and isinstance(s_.target, ast.Name) and s_.value is not None:
                 tgt, val = s_.target.id, s_.value
             mentions = any(isinstance(x, ast.Name) and x.id == C for x in ast.walk(s_))
+            if val is not None and val is sort_at:
+                continue      # results = sorted(C, key=...): the temporary we looked through
             if tgt == C:
                 init, fills, sorts = val, [], []
             elif isinstance(s_, ast.Expr) and isinstance(s_.value, ast.Call) and isinstance(s_.value.func, ast.Attribute) and \
@@ -200,6 +210,7 @@ def infer_roles(prog) -> Roles:
         if sorts:
             sort_kw = list(sorts[0][1].keywords)
             sort_at = sorts[0][1]
+        sort_at_ = sort_at
         if sort_kw is None:
             return comp
         call = ast.Call(func=ast.Name(id="sorted", ctx=ast.Load()), args=[comp], keywords=sort_kw)
